@@ -1,10 +1,12 @@
 import Hls.Proto
 import Hls.Playlist.MediaModel
+import Hls.Playlist.MediaGrammar
 /-! Model driver for the `playlist` correspondence stream (C14, C15): media playlists.
 
 ops
   `mar <canon media>`   → `mar <hex of Marshal(p)> fix=<0|1|-> rt <ok <canon>|err|panic>`
-  `unm <hex bytes>`     → `unm ok <canon> re <hex of Marshal(value)>` | `unm err` | `unm panic`
+  `unm <hex bytes>`     → `unm ok <canon> re <hex of Marshal(value)> g=<strict><lenient>` | `unm err g=…` | `unm panic g=…`
+                          (g = verdicts of the strict grammar `MediaGrammar.accepts` on the input bytes)
 
 canonical value syntax (tokens separated by one blank; strings are `x<hex>`; absent = `-`):
   media <version> <indep> <start|-> <allowcache|-> <target> <sc> <partinf|-> <mseq> <dseq|-> <ptype|-> <map> <skip|->
@@ -229,10 +231,12 @@ def doUnm (h : String) : String :=
   match bytesOfHex h with
   | none => "bad-op"
   | some bs =>
-    match Media.unmarshal C (strOfBytes bs) with
-    | .ok q => s!"unm ok {cMedia q} re {hexOrDash ((Media.marshal C q).map Char.toNat)}"
-    | .err => "unm err"
-    | .panic => "unm panic"
+    let text := strOfBytes bs
+    let g := s!" g={cBool (Hls.Playlist.MG.accepts false text)}{cBool (Hls.Playlist.MG.accepts true text)}"
+    match Media.unmarshal C text with
+    | .ok q => s!"unm ok {cMedia q} re {hexOrDash ((Media.marshal C q).map Char.toNat)}" ++ g
+    | .err => "unm err" ++ g
+    | .panic => "unm panic" ++ g
 
 def step (_ : Unit) (line : String) : Unit × List String :=
   match words line with
